@@ -339,6 +339,26 @@ Theorem scalar_only_fp_rule_refuted :
 Proof. exact scalar_only_rule_refuted_lem. Qed.
 Print Assumptions scalar_only_fp_rule_refuted.
 
+(* ---- round 3 (wave v): alloca in leaf functions ----
+   frame_sp_aligned composed with alloca_memory_valid_and_aligned: in EVERY function (any slots / saved registers of
+   either parity, either frame layout, leaf or not) every live alloca block is 16-byte aligned and below the frame *)
+Theorem alloca_aligned_in_every_function : forall f E evs, E mod 16 = 8 -> Forall ev_wf evs ->
+  let s := arun evs (astate0 (sp_after f E)) in
+  a_sp s mod 16 = 0
+  /\ forall b, In b (a_blocks s) ->
+       b_addr b mod 16 = 0 /\ b_addr b + b_size b <= sp_after f E /\ 0 <= b_req b <= b_size b.
+Proof. exact FrameProofs.alloca_aligned_in_every_function. Qed.
+Print Assumptions alloca_aligned_in_every_function.
+
+(* rounding the block (slots + saved registers) to 16 only in non-leaf functions is refuted: one slot, one alloca *)
+Theorem leaf_unrounded_block_refuted :
+  (forall f E, sp_after_lf false f E = sp_after f E)
+  /\ exists f E n, E mod 16 = 8 /\ ev_wf (EAlloca n) /\ keep_fp f = true
+       /\ sp_after_lf true f E mod 16 = 8
+       /\ exists b, In b (a_blocks (arun [EAlloca n] (astate0 (sp_after_lf true f E)))) /\ b_addr b mod 16 = 8.
+Proof. exact leaf_unrounded_block_refuted_lem. Qed.
+Print Assumptions leaf_unrounded_block_refuted.
+
 (* ---- round 3: insns with a side effect whose output is dead ----
    both dead-code eliminations (SSA, -O2 and above; after register allocation) delete an insn only if it has an
    output without a use and is not in their list of control insns; the lists read off the checked tree keep calls
